@@ -3,7 +3,7 @@ import importlib
 import os
 import sys
 
-from . import common, framework, translate
+from . import common, framework, translate, imp_translate
 
 
 def cmd_gentables(argv):
@@ -19,6 +19,11 @@ def cmd_gentables(argv):
     except translate.TranslateError as e:
         # reported by the property checks; setup keeps the previous GenLib.v
         common.log("GenLib translation failed: %s" % e)
+    try:
+        print(imp_translate.write(imp_translate.generate()))
+    except translate.TranslateError as e:
+        # reported by the property checks (C05, C10); setup keeps the previous GenImp.v
+        common.log("GenImp translation failed: %s" % e)
     return 0
 
 
